@@ -18,4 +18,5 @@ PROPERTY NeverMergedA
 PROPERTY ExactlyOnceAfterFinal
 PROPERTY AllPartsInOrder
 PROPERTY Isolation
+PROPERTY FreeIsOwnOnly
 CHECK_DEADLOCK FALSE
